@@ -233,7 +233,7 @@ PROPS = {
                       "proof term contains eq_refl : is_atomic uid_ops = true, which stops type-checking if the macro is no longer a single fetch_add. Hardware atomicity of "
                       "AtomicU32::fetch_add is trusted. The stress stream compiles from 1..16 threads concurrently and checks all uids pairwise distinct, clones equal, per-thread increasing.",
         "level_note": "Coq kernel; no axioms; translator lib/gen_uidops.py (regular expressions over the macro body, the static's declaration and Scope::new); atomicity and memory ordering of the hardware/Rust atomic are trusted.",
-        "streams": ["c17"],
+        "streams": ["c17", "loop"],
         "rule": "N in {1,2,4,8,16} threads x 2000 compilations each (thorough: up to 50000) of two valid and two invalid sources, started together behind a barrier, two repetitions; "
                 "non-trivial = a run with at least two threads; distinct by (threads, m, repetition)",
         "nontrivial": lambda r: "threads=1 " not in r["arg"],
